@@ -263,6 +263,11 @@ def _handle_block_end(line_num: int, violation: "Violation", state: _BlockState)
 
 def _parse_ignore_start_rules(line: str) -> set[str]:
     """Extract rule names from ignore-start directive."""
+    bracket = re.search(r"ignore-start\[([^\]]+)\]", line)
+    if bracket:
+        bracket_rules = [r.strip() for r in bracket.group(1).split(",") if r.strip()]
+        if bracket_rules:
+            return set(bracket_rules)
     match = re.search(r"ignore-start\s+([^\s#]+(?:\s+[^\s#]+)*)", line)
     if match:
         rules_text = match.group(1).strip()
